@@ -356,6 +356,61 @@ def run {σ} (cfg : Cfg σ) : Cache σ → List Op → Except Panic (Cache σ)
 
 def Cache.init {σ} (sk : σ) : Cache σ := { core := { sk := sk } }
 
+/-! ### the lock table (`query_lock_manager.rs`) on top of the cache
+
+Values are lock instances (`Arc<RwLock<()>>`, here: ids); `ActiveLockLifecycleListener::is_pinned`
+is `strong_count > 1`, i.e. some reference besides the table's own is alive: `tok k v = v`, and every
+live reference holds one occurrence of the id in `pins`. -/
+
+structure LockTable (σ : Type) where
+  cache : Cache σ
+  /-- live references handed out: (query key, lock id) -/
+  handles : List (Nat × Nat) := []
+  /-- the next fresh lock id (`Arc::new`) -/
+  next : Nat := 0
+
+def LockTable.init {σ} (sk : σ) : LockTable σ := { cache := Cache.init sk }
+
+/-- `QueryLockManager::get_lock_instance`. -/
+def acquire {σ} (cfg : Cfg σ) (t : LockTable σ) (q : Nat) : Except Panic (LockTable σ × Nat) :=
+  match sGet t.cache.core.st q with
+  | some id =>
+    -- fast path: `hot.get` clones the stored instance inside the read (one more reference), then
+    -- runs its maintenance
+    match step cfg { t.cache with pins := id :: t.cache.pins } (.get q) with
+    | .error e => .error e
+    | .ok (c, _, _) => .ok ({ t with cache := c, handles := (q, id) :: t.handles }, id)
+  | none =>
+    match step cfg t.cache (.get q) with
+    | .error e => .error e
+    | .ok (c, _, _) =>
+      -- a fresh instance referenced by the caller; `entry(q)`: Vacant → insert a clone
+      match step cfg { c with pins := t.next :: c.pins } (.ins q t.next) with
+      | .error e => .error e
+      | .ok (c, .occupied w, _) =>
+        -- Occupied → clone the stored one, the fresh instance is dropped
+        .ok ({ cache := { c with pins := w :: c.pins.erase t.next }, handles := (q, w) :: t.handles, next := t.next + 1 }, w)
+      | .ok (c, _, _) => .ok ({ cache := c, handles := (q, t.next) :: t.handles, next := t.next + 1 }, t.next)
+
+/-- dropping one reference `(q, id)` -/
+def release {σ} (t : LockTable σ) (q id : Nat) : LockTable σ :=
+  if (q, id) ∈ t.handles then
+    { t with cache := { t.cache with pins := t.cache.pins.erase id }, handles := t.handles.erase (q, id) }
+  else t
+
+inductive LOp
+  | acq (q : Nat)
+  | rel (q id : Nat)
+  deriving DecidableEq, Repr
+
+def lrun {σ} (cfg : Cfg σ) : LockTable σ → List LOp → Except Panic (LockTable σ)
+  | t, [] => .ok t
+  | t, .acq q :: ops =>
+    match acquire cfg t q with
+    | .ok (t, _) => lrun cfg t ops
+    | .error e => .error e
+  | t, .rel q id :: ops => lrun cfg (release t q id) ops
+
 /-! ### `Policy::new` -/
 
 /-- `(window_capacity, protected_capacity, max_capacity - window_capacity)` of `Policy::new`.
